@@ -664,7 +664,33 @@ func TestVerif_C01_LatencyLoss(t *testing.T) {
 		if err := d.startBoth(); err != nil {
 			rt.Fatalf("harness: start: %v", err)
 		}
-		d.signalAll()
+		// signalling: up front, except for sockets whose candidate trickles in at a drawn step of the lossy phase
+		// (the peer may meanwhile learn the address as peer-reflexive and be superseded later)
+		lateAt := map[*simSock]int{}
+		for side := 0; side < 2; side++ {
+			for _, sk := range d.ag[side].socks {
+				if c.NoSignal[sk.name()] {
+					continue
+				}
+				if rapid.IntRange(0, 3).Draw(rt, "signalLate") == 0 {
+					lateAt[sk] = rapid.IntRange(0, maxSteps).Draw(rt, "signalAtStep")
+					d.lbl["late-signalling"] = true
+				} else {
+					_ = d.ag[side].signalTo(d.ag[1-side], sk)
+				}
+			}
+		}
+		signalDue := func(step int, all bool) {
+			for side := 0; side < 2; side++ {
+				for _, sk := range d.ag[side].socks {
+					if at, ok := lateAt[sk]; ok && (all || at <= step) {
+						delete(lateAt, sk)
+						_ = d.ag[side].signalTo(d.ag[1-side], sk)
+						d.ops = append(d.ops, fmt.Sprintf("s%d signal(%s)", step, sk.name()))
+					}
+				}
+			}
+		}
 		works := d.reach()
 		// the protected pair must be one on which a full agent can originate checks from what was signalled
 		// alone (discovery through other pairs would depend on unprotected traffic)
@@ -768,6 +794,7 @@ func TestVerif_C01_LatencyLoss(t *testing.T) {
 			}
 		}
 		for step = 0; step < nSteps; step++ {
+			signalDue(step, false)
 			side := (step + c.StartOrder) % 2
 			d.ag[side].tick()
 			d.ops = append(d.ops, fmt.Sprintf("s%d tick%c", step, 'A'+side))
@@ -776,6 +803,7 @@ func TestVerif_C01_LatencyLoss(t *testing.T) {
 		}
 		// the lossy phase is over: latency stays until the queue has drained, then the loss-free suffix runs
 		lossy = false
+		signalDue(step, true)
 		for extra := 0; len(queue) > 0 && extra < 16; extra++ {
 			side := (step + c.StartOrder) % 2
 			d.ag[side].tick()
@@ -806,6 +834,9 @@ func TestVerif_C01_LatencyLoss(t *testing.T) {
 		if nSteps == maxSteps {
 			labels = append(labels, "loss-outlasts-budget")
 		}
+		if d.lbl["late-signalling"] {
+			labels = append(labels, "late-signalling")
+		}
 		if len(works) > 0 && prot[0] == nil {
 			labels = append(labels, "no-directly-signalled-working-pair")
 		}
@@ -835,6 +866,134 @@ func TestVerif_C01_LatencyLoss(t *testing.T) {
 			}
 			st.Fail(rt, sig, "%s\nlatency A→B %d B→A %d steps, loss %d%% of %s for %d steps, protected request #%d (A) #%d (B) on %s<->%s\ncase: %s\nops: %s\nfinal: %s",
 				msg, lat[0], lat[1], lossPct, lossClass, nSteps, protK[0], protK[1], sockName(prot[0]), sockName(prot[1]), c, strings.Join(o, "; "), d.snapshotSel())
+		}
+	})
+}
+
+// TestVerif_C01_ControlledLiveness: the controlled agent against a scripted, correctly behaving controlling
+// peer that nominates one pair P and — having received the success response to its USE-CANDIDATE — never
+// nominates again (it only keeps the pair alive with ordinary checks).  Whatever the order of ordinary checks,
+// the nomination, the arrival of the signalled candidate (possibly superseding a peer-reflexive one), answers
+// to and losses of the agent's own checks: once P's own check has been answered the agent must have selected P
+// and be Connected ("both reach Connected" seen from the controlled side).
+func TestVerif_C01_ControlledLiveness(t *testing.T) {
+	st := vfNewStats(t)
+	rapid.Check(t, func(rt *rapid.T) {
+		nLocal := rapid.IntRange(1, 2).Draw(rt, "nLocal")
+		lateSignal := rapid.Bool().Draw(rt, "nominatedRemoteSignalledLate")
+		locals := []duoSockSpec{{Kind: simKindHost}, {Kind: simKindSrflx}}[:nLocal]
+		eps := []soloEpSpec{{Typ: CandidateTypeHost}, {Typ: CandidateTypeRelay}}
+		cfg := simAgentConfig{controlling: false, maxBinding: 7, disconnected: time.Hour, keepalive: 2 * time.Second, explicitTimeout: true}
+		s, err := newSoloSim(cfg, locals, eps)
+		if err != nil {
+			rt.Fatalf("harness: %v", err)
+		}
+		defer s.close()
+		if err := s.ag.start(s.peer.ufrag, s.peer.pwd); err != nil {
+			rt.Fatalf("harness: %v", err)
+		}
+		signalled := map[int]bool{}
+		signal := func(i int) {
+			if !signalled[i] {
+				_ = s.ag.addRemoteSync(s.epCandidate(i, eps[i]))
+				signalled[i] = true
+				s.ops = append(s.ops, fmt.Sprintf("signal(ep%d)", i))
+			}
+		}
+		signal(1)
+		if !lateSignal {
+			signal(0)
+		}
+		// P = (local socket pl, endpoint 0)
+		pl := s.ag.socks[rapid.IntRange(0, nLocal-1).Draw(rt, "nominatedLocal")]
+		nominated, validatedBeforeNomination, supersededBetween := false, false, false
+		pValid := false
+		nOps := rapid.IntRange(1, 14).Draw(rt, "nOps")
+		for i := 0; i < nOps; i++ {
+			op := rapid.SampledFrom([]string{"check", "check", "nominate", "signal", "answer", "answer", "drop", "tick"}).Draw(rt, "op")
+			s.purgeNonRequests()
+			switch op {
+			case "check":
+				ep := s.eps[rapid.IntRange(0, 1).Draw(rt, "ep")]
+				l := s.ag.socks[rapid.IntRange(0, nLocal-1).Draw(rt, "l")]
+				s.peerRequest(ep, l, false, nil, 100, "controlling", 77)
+				s.ops = append(s.ops, fmt.Sprintf("check(%s→%s)", ep.name(), l.name()))
+			case "nominate":
+				if !nominated && pValid {
+					validatedBeforeNomination = true
+				}
+				nominated = true
+				s.peerRequest(s.eps[0], pl, true, nil, 100, "controlling", 77)
+				s.ops = append(s.ops, fmt.Sprintf("nominate(%s→%s)", s.eps[0].name(), pl.name()))
+			case "signal":
+				if nominated && !pValid && !signalled[0] {
+					supersededBetween = true
+				}
+				signal(0)
+			case "answer", "drop":
+				reqs := s.agentRequests()
+				if len(reqs) == 0 {
+					continue
+				}
+				d := reqs[rapid.IntRange(0, len(reqs)-1).Draw(rt, "which")]
+				s.removeInflight(d)
+				if ep := s.epByAddr(d.dst); ep != nil && op == "answer" {
+					if ep == s.eps[0] && d.src == pl {
+						pValid = true
+					}
+					s.answer(d, ep)
+					s.ops = append(s.ops, fmt.Sprintf("answer(%s)", d))
+				} else {
+					s.ops = append(s.ops, fmt.Sprintf("drop(%s)", d))
+				}
+			case "tick":
+				s.ag.tick()
+				s.ops = append(s.ops, "tick")
+			}
+		}
+		if !nominated {
+			s.peerRequest(s.eps[0], pl, true, nil, 100, "controlling", 77)
+			s.ops = append(s.ops, "nominate(at the end)")
+		}
+		// from here on the peer is loss-free: it signals what is left, answers every check, keeps P alive with
+		// ordinary checks, and does not nominate again
+		signal(0)
+		for round := 0; round < 10; round++ {
+			s.ag.tick()
+			for k := 0; k < 20; k++ {
+				reqs := s.agentRequests()
+				if len(reqs) == 0 {
+					break
+				}
+				for _, d := range reqs {
+					s.removeInflight(d)
+					if ep := s.epByAddr(d.dst); ep != nil {
+						s.answer(d, ep)
+					}
+				}
+			}
+			s.peerRequest(s.eps[0], pl, false, nil, 100, "controlling", 77)
+			s.purgeNonRequests()
+		}
+		if s.w.elapsed() > 2*time.Second {
+			st.Inconclusive()
+
+			return
+		}
+		desc := fmt.Sprintf("locals=%d lateSignal=%v P=%s<->%s ops=%s", nLocal, lateSignal, pl.name(), s.eps[0].name(), strings.Join(s.ops, "; "))
+		nontrivial := !validatedBeforeNomination
+		st.Record(vfHashStr(desc), nontrivial, fmt.Sprintf("nomination-before-validation:%v", !validatedBeforeNomination), fmt.Sprintf("superseded-between-nomination-and-validation:%v", supersededBetween))
+		if supersededBetween && st.WantSample() {
+			st.Sample(func() string { return desc })
+		}
+		sel := s.ag.selectedPair()
+		want := fmt.Sprintf("%s:%d|%s:%d", pl.pub.Addr(), pl.pub.Port(), s.eps[0].pub.Addr(), s.eps[0].pub.Port())
+		if sel == nil || s.ag.state() != ConnectionStateConnected {
+			st.Fail(rt, "C01/converge/not-connected", "controlled agent: state=%s selected=%v although the peer nominated %s, got its success response, and every check has been answered since\n%s",
+				s.ag.state(), sel, want, desc)
+		}
+		if got := fmt.Sprintf("%s:%d|%s:%d", sel.Local.Address(), sel.Local.Port(), sel.Remote.Address(), sel.Remote.Port()); got != want && sel.Local.Type() == CandidateTypeHost {
+			st.Fail(rt, "C01/converge/not-mirror-images", "controlled agent selected %s, the peer nominated (only) %s\n%s", got, want, desc)
 		}
 	})
 }
